@@ -288,12 +288,15 @@ func copyDBIntoSQLite(source, destination *sql.DB,
 		return err
 	}
 	defer tx.Rollback()
-	deleteProfilesQueryStr := fmt.Sprintf("DELETE from user_profile ")
-	if rows, err := destination.Query(deleteProfilesQueryStr); err != nil {
-		logger.Printf("err='%s'", err)
-		return err
-	} else {
-		rows.Close()
+	// The destination becomes an exact copy: rows that are gone from the source
+	// (deleted users, deleted or expired signed data) must go away too. The
+	// deletes are part of the transaction so that a failed copy changes nothing.
+	for _, deleteStmt := range []string{"DELETE from user_profile",
+		"DELETE from expiring_signed_user_data"} {
+		if _, err := tx.Exec(deleteStmt); err != nil {
+			logger.Printf("err='%s'", err)
+			return err
+		}
 	}
 	stmtText := saveUserProfileStmt[destinationType]
 	stmt, err := tx.Prepare(stmtText)
